@@ -84,7 +84,10 @@ CFG = {
                   "step from the regenerated syntax to Model/DynList.lean is no longer a transcription: it is a theorem (via skeleton_* and "
                   "the kernel-evaluated parser); validated by correspondence only: that the interpreter's semantics is Go's for this subset "
                   "(the driver runs every dl op through it: 0 disagreements with model and implementation), Println/SetCell rows. "
-                  "Round 4 (Props/C19Wid.lean, 14 theorems): wid_fully_recognised, wid_bodies_as_expected, gen_bodies_parsed, list_rhs_is_gen, "
+                  "Round 4 (Props/C19C15.lean): list_key_j composes C19 with C15 - in any application state whose focus path runs through a Dynamic list, a j key "
+                  "is offered to the list in the capture phase, the list (its executed CaptureEvent) moves the selection and answers ConsumeAndRedraw, and the "
+                  "dispatch ends there with redraw and consume taking effect once (no other handler sees the key); else the key goes on along the route. "
+                  "Round 4 (Props/C19Wid.lean, 15 theorems): list_new_body_eq_model, wid_fully_recognised, wid_bodies_as_expected, gen_bodies_parsed, list_rhs_is_gen, "
                   "minmax_body_eq_model, list_index_body_eq_model, list_step_body_eq_model (every List method incl. Draw's range loop over the checked "
                   "slice: same state, rows, panics), list_history_body_eq_model, pager_layout_body_eq_model, pager_draw_body_eq_model (state AND window "
                   "cell by cell), pager_scroll_body_eq_model, pager_history_body_eq_model, pager_offset_clamped_body, scrollbar_draw_body_eq_model "
